@@ -28,13 +28,15 @@ func c14sRun(c c14Case, v *vlib.Verdict) {
 			seq := c14Resolve(op, m.top, last, seen)
 			last = seq
 			snd.count = seq
-			pkt, err := snd.sealPacketLocked(MessageTypeTransport, []byte{byte(i), byte(i >> 8), 0xC1, 0x4}, &key)
+			// payload length 0 (tag-only packet), 1 or 4 bytes - the filter must not care
+			payload := []byte{byte(i), byte(i >> 8), 0xC1, 0x4}[:[]int{0, 1, 4, 4}[(seq+uint64(i))%4]]
+			pkt, err := snd.sealPacketLocked(MessageTypeTransport, payload, &key)
 			if err != nil {
 				v.Inconclusive = "seal: " + err.Error()
 				return
 			}
 			if !op.Mark {
-				pkt[HeaderLen+SessionIDLen+CounterLen+int(seq%4)] ^= 1 << (seq % 8)
+				pkt[HeaderLen+SessionIDLen+CounterLen+int(seq%uint64(len(payload)+TagLen))] ^= 1 << (seq % 8)
 				forged = true
 			}
 			if m.acc[seq] {
